@@ -86,12 +86,12 @@ def geom_device(dt):
     """Device tuple of Geometry.tla -> (device | None, error text)."""
     key = tuple(dt)
     if key not in _DEVS:
-        kind, dim, na, md, mr, tl, th, f4, of4 = dt
+        kind, dim, na, md, mr, tl, th, f4, of4, fden = dt
         kw = dict(name=f"dev_{kind}", dimensions=dim, rydberg_level=60,
                   min_atom_distance=md * UNIT, max_atom_num=na or None,
                   max_radial_distance=mr or None, min_layout_traps=tl,
-                  max_layout_traps=th or None, max_layout_filling=f4 / 4,
-                  optimal_layout_filling=(of4 / 4) if of4 else None,
+                  max_layout_traps=th or None, max_layout_filling=f4 / fden,
+                  optimal_layout_filling=(of4 / fden) if of4 else None,
                   channel_objects=(_PHYS_CH,))
         try:
             _DEVS[key] = ((Device if kind == "D" else VirtualDevice)(**kw), "")
@@ -468,6 +468,9 @@ PL = [(0, 0), (3072, 4096), (3072, 4112), (3072, 4080), (-3072, 4096), (5120, 0)
 PL3 = [(0, 0, 0), (1024, 2048, 2048), (1024, 2048, 2032), (2048, 4096, 4096), (2048, 4096, 4112),
        (0, 0, 6144), (0, 0, 6160)]
 PA = [(0, 0), (3072, 4096), (-2560, 0), (0, 2560), (2560, 2560)]
+# 12 points of a 3 um square grid (trap grid, pairwise >= 3 um, all within 6.1 um of the origin)
+PA12 = [(0, 0), (3072, 0), (0, 3072), (-3072, 0), (0, -3072), (3072, 3072), (-3072, 3072),
+        (3072, -3072), (-3072, -3072), (6144, 0), (0, 6144), (-6144, 0)]
 
 
 def random_points(rng, m, r, n, bound=7600):
@@ -496,7 +499,8 @@ def random_points(rng, m, r, n, bound=7600):
 
 def geometry_configs(quick):
     base = {"Kinds": tla_set(["D", "V"]), "ConnN": "{}", "ConnSp": "{}", "MinTrapsS": "{1}",
-            "MaxTrapsS": "{0}", "Fill4S": "{2}", "OptFill4S": "{0}", "TMax": "0"}
+            "MaxTrapsS": "{0}", "Fill4S": "{2}", "OptFill4S": "{0}", "TMax": "0", "FillDen": "4",
+            "Prefix": "FALSE"}
     cfgs = []
     cfgs.append(("plain2d", P2 if not quick else P2[:12], {
         **base, "NMax": "3" if quick else "5", "Dims": "{2, 3}", "MaxAtomsS": "{0, 2, 3}",
@@ -527,6 +531,15 @@ def geometry_configs(quick):
         **base, "Kinds": tla_set(["D"]), "NMax": "2" if quick else "3", "Dims": "{2}",
         "MaxAtomsS": "{3}", "MinDistS": "{0, 2560}", "MaxRadS": "{5}", "MinTrapsS": "{1, 3}",
         "MaxTrapsS": "{0, 4, 6}", "Fill4S": "{2, 4}", "OptFill4S": "{0, 1, 2}"}))
+    # the same closure for filling fractions that are not 1/k (0.3, 0.35, 0.4, 0.45, 0.6 = f/20),
+    # optimal filling undefined / below / equal to the maximum, registers of 1..12 atoms (the
+    # prefixes of PA12).  No filling verdict is decided here (no layout in the state, floats are
+    # not exact): only "raises RuntimeError or the device accepts what it produced".
+    cfgs.append(("autolayout-nondyadic", PA12, {
+        **base, "Kinds": tla_set(["D"]), "Prefix": "TRUE", "NMax": "12", "Dims": "{2}",
+        "MaxAtomsS": "{12}", "MinDistS": "{0, 2560}", "MaxRadS": "{20}" if quick else "{12, 20}",
+        "MinTrapsS": "{1}", "MaxTrapsS": "{0}" if quick else "{0, 45}", "FillDen": "20",
+        "Fill4S": "{6, 7, 8, 9, 12}", "OptFill4S": "{0, 6, 7, 8, 9, 12}"}))
     cfgs.append(("connectivity", [(0, 0)], {
         **base, "NMax": "0", "Dims": "{2}" if quick else "{2, 3}",
         "MaxAtomsS": "{0, 7, 30}", "MinDistS": "{0, 4096, 5120}", "MaxRadS": "{0, 5, 21}",
